@@ -87,6 +87,14 @@ func (f *FakeStore) Query(ctx context.Context, prefix string) ([]allocator.KeyVa
 }
 func (f *FakeStore) Watch(prefix string, cb func(key string, value []byte, deleted bool)) { f.watch = cb }
 
+// RemoteApply installs a record written by another node and notifies the watcher.
+func (f *FakeStore) RemoteApply(key string, value []byte) {
+	f.data[key] = value
+	if f.watch != nil {
+		f.watch(key, value, false)
+	}
+}
+
 func (f *FakeStore) String() string {
 	var ks []string
 	for k := range f.data {
@@ -232,6 +240,10 @@ func (s *distSys) Apply(op string) string {
 	case "Allocate", "AllocateWithMAC":
 		var p *net.IPNet
 		var err error
+		var gensBefore []byte
+		if s.l != nil {
+			gensBefore = s.da.VerifC05Epoch().VerifC05Generations()
+		}
 		if name == "Allocate" {
 			p, err = s.da.Allocate(s.bg, a[0])
 		} else {
@@ -240,6 +252,16 @@ func (s *distSys) Apply(op string) string {
 		old, held := s.Held[a[0]]
 		if err != nil {
 			injected := s.st.fired > faultBefore
+			if injected && !held && s.l != nil {
+				// the call returned no address: learn which slot it stamped and rolled back (reference: free again)
+				after := s.da.VerifC05Epoch().VerifC05Generations()
+				for i, u := range s.Usable {
+					idx := i + 1 // usable unit i is pool index i+1 (index 0 = network address)
+					if (gensBefore[idx/4]>>(uint(idx%4)*2))&3 != (after[idx/4]>>(uint(idx%4)*2))&3 {
+						s.l.released(u)
+					}
+				}
+			}
 			if injected {
 				// failed persistence: a new subscriber simply gets nothing (and the unit must stay in circulation: probe).
 				// An existing holder asking again must keep its address.
@@ -823,30 +845,9 @@ func (s *nexusSys) Check() []explore.Viol {
 			s.ExpectLookup("store record", id, rec.IPv4Addr, rec.IPv4Addr != "")
 		}
 	}
-	if len(s.Viols) == 0 {
-		// "fresh subscribers" are the provisioned subscribers that hold nothing
-		var idle []string
-		for _, id := range s.ids {
-			if _, held := s.Held[id]; !held {
-				idle = append(idle, id)
-			}
-		}
-		c5 := s.Cl.C05
-		s.Cl.C05 = false
-		s.ProbeIDs = idle
-		if idle == nil {
-			s.ProbeIDs = []string{}
-		}
-		s.Probe("AllocateIPForSubscriber", func(id string) string {
-			ip, err := s.cl.AllocateIPForSubscriber(s.bg, id)
-			synctest.Wait()
-			if err != nil {
-				return ""
-			}
-			return ip
-		})
-		s.Cl.C05 = c5
-	}
+	// No probe here: with more provisioned subscribers than hosts a probe over all idle subscribers
+	// collides in every state (the hash has no collision handling), which would hide every deeper
+	// history. Collisions are found by the explicit Allocate operations of the BFS instead.
 	return s.Viols
 }
 
